@@ -26,7 +26,8 @@ Inductive cop :=
 | CCreate (idx : Z) (m : create_msg)
 | CClaim (who idx secret : Z)
 | CAdv (dts : list Z)
-| CAdvN (n dt : Z).                 (* [n] block boundaries with the same time step (long idle stretches) *)
+| CAdvN (n dt : Z)                  (* [n] block boundaries with the same time step (long idle stretches) *)
+| CSetParams (who : Z) (P' : list aparam).   (* MsgUpdateParams signed by [who] (GOV = the authority) *)
 
 (** what the harness writes per step: the entries of the full observation that differ from the
     previous one (it reads everything after every step and compares; writing only the changes
@@ -95,6 +96,7 @@ Definition to_op (k : case) (c : cop) : op :=
   | CClaim who idx secret => Claim who (id_at k idx) secret
   | CAdv dts => Adv dts
   | CAdvN n dt => Adv (repeat dt (Z.to_nat n))
+  | CSetParams who P' => SetParams who P'
   end.
 
 (** ** correspondence: the model state against one observation *)
@@ -266,6 +268,9 @@ Definition p03 (k : case) (po : obs) (c : cop) (o : obs) : Z :=
       let live := forallb (fun c : option cobs => match c with Some c' => negb (c_state_of c' =? 0) || (h1 <? c_exp_of c') | None => true end)
                           (o_contracts o) in
       first_nonzero [sm; (if due_ok && live && (o_code o =? 0) then 0 else 4); mv]
+  | CSetParams _ _ =>
+      (* a parameter change, accepted or not, moves nothing that C03 talks about *)
+      if same_view po o then 0 else 5
   end.
 
 (** ** The C04 monitor *)
@@ -324,7 +329,12 @@ Definition p04 (k : case) (o : obs) (ws : list (Z * Z)) : Z :=
 (** ** one pass over the case *)
 Record verdict := mkV { v_corr : Z; v_p03 : Z; v_c03 : Z; v_p04 : Z; v_c04 : Z }.
 
-Fixpoint check_from (k : case) (s : state) (po : obs) (ws : list (Z * Z)) (steps : list (cop * dobs)) (i : Z) (v : verdict) : verdict :=
+(** [act]: the property monitors are evaluated only up to and including the first parameter change of a
+    case: they (and the theorems) are about histories with unchanged asset parameters; after a change the
+    correspondence alone is checked (the model applies the new parameters like the code). *)
+Definition is_setparams (c : cop) : bool := match c with CSetParams _ _ => true | _ => false end.
+
+Fixpoint check_from (k : case) (act : bool) (s : state) (po : obs) (ws : list (Z * Z)) (steps : list (cop * dobs)) (i : Z) (v : verdict) : verdict :=
   match steps with
   | [] => v
   | (c, d) :: rest =>
@@ -333,28 +343,36 @@ Fixpoint check_from (k : case) (s : state) (po : obs) (ws : list (Z * Z)) (steps
       let s' := step s mo in
       let code := if step_ok s mo then 0 else 1 in
       let corr := if (v_corr v <? 0) && negb (op_wf k c && corr_obs k s' code o) then i else v_corr v in
-      let r03 := p03 k po c o in
+      let r03 := if act then p03 k po c o else 0 in
       let ws' := match c with
                  | CAdv dts => wticks k ws dts
                  | CAdvN n dt => wticks k ws (repeat dt (Z.to_nat n))
                  | _ => wclaims k po o ws
                  end in
-      let r04 := p04 k o ws' in
+      let r04 := if act then p04 k o ws' else 0 in
       let v' := mkV corr
                     (if (v_p03 v <? 0) && negb (r03 =? 0) then i else v_p03 v)
                     (if (v_p03 v <? 0) && negb (r03 =? 0) then r03 else v_c03 v)
                     (if (v_p04 v <? 0) && negb (r04 =? 0) then i else v_p04 v)
                     (if (v_p04 v <? 0) && negb (r04 =? 0) then r04 else v_c04 v) in
-      check_from k s' o ws' rest (i + 1) v'
+      check_from k (act && negb (is_setparams c)) s' o ws' rest (i + 1) v'
   end.
 
 (** ** the hypotheses of the theorems of Props/C03.v and Props/C04.v, decided per case: asset limits
     not negative, nothing in escrow at genesis, no create message signed by a module account or
     naming the escrow account as recipient ([Htlc/Sound.v]: [hyps_b k = true] implies them).  A case
-    outside the hypotheses is a harness defect and is reported as a divergence at step 0. *)
+    outside [hyps0_b] (the same without "no parameter change") is a harness defect and is reported as a
+    divergence at step 0. *)
 Definition wf_op_b (o : op) : bool :=
   match o with
-  | Create m => negb (m_sender m =? ESC) && negb (m_sender m =? BLK) && negb (m_to m =? ESC)
+  | Create m => negb (m_sender m =? ESC) && negb (m_sender m =? BLK)
+  | SetParams _ _ => false
+  | _ => true
+  end.
+(** the part of the hypotheses every case must satisfy (parameter changes are allowed in a case) *)
+Definition wf_sign_b (o : op) : bool :=
+  match o with
+  | Create m => negb (m_sender m =? ESC) && negb (m_sender m =? BLK)
   | _ => true
   end.
 Definition params_ok_b (P : list aparam) : bool := forallb (fun p => (0 <=? ap_limit p) && (0 <=? ap_tbl p)) P.
@@ -363,13 +381,15 @@ Definition escrow_empty_b (l : ledger) : bool :=
 Definition case_ops (k : case) : list op := map (fun cd : cop * dobs => to_op k (fst cd)) (k_steps k).
 Definition hyps_b (k : case) : bool :=
   params_ok_b (k_params k) && escrow_empty_b (bank_of k (k_obs0 k)) && forallb wf_op_b (case_ops k).
+Definition hyps0_b (k : case) : bool :=
+  params_ok_b (k_params k) && escrow_empty_b (bank_of k (k_obs0 k)) && forallb wf_sign_b (case_ops k).
 
 Definition check_all (k : case) : verdict :=
   let s0 := init (k_params k) (bank_of k (k_obs0 k)) (o_time (k_obs0 k)) in
   let ws0 := map (fun _ => (0, 0)) (k_params k) in
-  let v0 := mkV (if corr_obs k s0 0 (k_obs0 k) && hyps_b k then -1 else 0) (-1) 0
+  let v0 := mkV (if corr_obs k s0 0 (k_obs0 k) && hyps0_b k then -1 else 0) (-1) 0
                 (if p04 k (k_obs0 k) ws0 =? 0 then -1 else 0) (p04 k (k_obs0 k) ws0) in
-  check_from k s0 (k_obs0 k) ws0 (k_steps k) 0 v0.
+  check_from k true s0 (k_obs0 k) ws0 (k_steps k) 0 v0.
 
 (** (first diverging step or -1, first step violating the property or -1, violated clause) *)
 Definition check_case_C03 (k : case) : Z * Z * Z := let v := check_all k in (v_corr v, v_p03 v, v_c03 v).
